@@ -29,7 +29,18 @@ Pairs ==   {Bin(o1, Bin(o2, A, Bv), Cv) : o1 \in BinOps, o2 \in BinOps} \cup {Bi
       \cup {Un(u, Un(v, A)) : u \in UnOps, v \in UnOps}
       \cup {Tern(Bin(o, A, Bv), Cv, A) : o \in BinOps} \cup {Tern(A, Bv, Bin(o, Cv, A)) : o \in BinOps} \cup {Nilco(Bin(o, A, Bv), Cv) : o \in BinOps} \cup {Nilco(A, Bin(o, Bv, Cv)) : o \in BinOps}
       \cup {Idx(Un(u, Cv), A) : u \in UnOps} \cup {Un(u, Idx(Cv, A)) : u \in UnOps} \cup {Un(u, CallE(A, Bv)) : u \in UnOps} \cup {Un(u, Member(A, "m")) : u \in UnOps}
-D2 == Over(Kids) \cup Pairs
+\* atoms that are literals (number, true / false / nil, string) on either side of every binary operator, under every unary operator, and next to a unary operand --
+\* the token BEFORE an operator decides nothing: `true - 1`, `nil - 1`, `"s" - 1` are subtractions like `a - 1` (no postfix forms on literals here)
+Lits == {Leaf(x) : x \in LitToks}
+LitTrees ==   {Bin(o, l, r) : o \in BinOps, l \in Lits \cup {A}, r \in Lits \cup {Bv}}
+         \cup {Un(u, l) : u \in UnOps \ {"&"}, l \in Lits}
+         \cup {Bin(o, l, Un(u, r)) : o \in BinOps, u \in {"-", "!", "^"}, l \in Lits \cup {A}, r \in {Leaf("1"), Leaf("true"), Bv}}
+         \cup {Bin(o, Un(u, l), r) : o \in BinOps, u \in {"-", "!", "^"}, l \in {Leaf("7"), Leaf("nil"), A}, r \in Lits}
+         \cup {Tern(c, x, y) : c \in Lits, x \in {Leaf("1"), Un("-", Leaf("1"))}, y \in {Un("-", Leaf("7")), Leaf("nil")}}
+         \cup {Nilco(l, r) : l \in Lits, r \in {Un("-", Leaf("1")), Leaf("true")}}
+         \cup {Idx(Cv, Bin(o, l, Leaf("1"))) : o \in {"-", "+", "*"}, l \in Lits \cup {A}}
+         \cup {CallE(A, Bin("-", l, Leaf("1"))) : l \in Lits}
+D2 == Over(Kids) \cup Pairs \cup LitTrees
 \* depth 3: binary / unary / ternary / ?? / index roots whose children are depth-2 trees over the level representatives (no leaves-only subtrees)
 SmallReps == {Bin("||", A, Bv), Bin("==", A, Bv), Bin("+", A, Bv), Bin("in", A, Cv), Un("-", A), Tern(A, Bv, Cv), Nilco(A, Bv), Idx(Cv, A)}
 D2s == {Bin(op, l, r) : op \in {"&&", "<", "-", "%", "in"}, l \in SmallReps \cup {A}, r \in SmallReps \cup {Bv}}
